@@ -15,7 +15,7 @@ PROP = "C06"
 LEVEL = "fault_enumeration"
 KINDS = ("sim", "bytesio", "buffered")
 FULL_ENUM_LIMIT = 2048
-MEM_GIB = 8.0
+MEM_GIB = 4.0
 
 TIERS = {
     # classes (None = all), instances per class
